@@ -9977,3 +9977,489 @@ func ruleSameNodeRecursionDiscriminated(c *core.Ctx) {
 		dfs(f, f, nil)
 	}
 }
+
+// ruleEveryReturnedDirectoryIsWatched (T11): generateInWatchMode returns the directories the output depends on besides
+// the package directory (imports, previous versions). Each of them has to reach Watcher.Add: the only tests that may
+// stand between the result and the Add are "is there a result" (nil / empty) and per-directory tests on the loop
+// variable. A test that compares the result with something else — its length with the length of the watch list — lets
+// a regeneration leave a directory unwatched, and edits there no longer regenerate (fix 5d27e53: with one import,
+// `len(dirs) > len(w.WatchList())` was 1 > 1).
+func ruleEveryReturnedDirectoryIsWatched(c *core.Ctx) {
+	const rule = "T11"
+	c.Rule(rule, "internal/cmd: between the result of generateInWatchMode and the Watcher.Add of its elements stand only nil/emptiness tests of the result and tests of the single directory — no comparison of the result with the watch list or any other quantity", 1)
+	giw, _, _ := c.Func("internal/cmd", "generateInWatchMode")
+	if giw == nil {
+		c.Undecided(rule, "anchor/internal/cmd.generateInWatchMode", 0, "anchor function not found")
+		return
+	}
+	n := 0
+	isAdd := func(info *types.Info, ce *ast.CallExpr) bool {
+		g := core.Callee(info, ce)
+		return g != nil && strings.HasSuffix(core.FullName(g), "fsnotify.Watcher).Add") && len(ce.Args) == 1
+	}
+	// judge: inside body, `holder` holds the result; report every Add of an element of it
+	var judge func(owner string, info *types.Info, body *ast.BlockStmt, holder types.Object, outer []ast.Expr, depth int)
+	judge = func(owner string, info *types.Info, body *ast.BlockStmt, holder types.Object, outer []ast.Expr, depth int) {
+		mentions := func(e ast.Node, o types.Object) bool {
+			hit := false
+			ast.Inspect(e, func(m ast.Node) bool {
+				if id, ok := m.(*ast.Ident); ok && info.ObjectOf(id) == o {
+					hit = true
+				}
+				return !hit
+			})
+			return hit
+		}
+		mentionsWatchList := func(e ast.Node) bool {
+			hit := false
+			ast.Inspect(e, func(m ast.Node) bool {
+				if ce, ok := m.(*ast.CallExpr); ok {
+					if g := core.Callee(info, ce); g != nil && strings.HasSuffix(core.FullName(g), "fsnotify.Watcher).WatchList") {
+						hit = true
+					}
+				}
+				return !hit
+			})
+			return hit
+		}
+		// a leaf comparison about the result that is allowed
+		var badLeaf func(e ast.Expr, elem types.Object) ast.Expr
+		badLeaf = func(e ast.Expr, elem types.Object) ast.Expr {
+			e = ast.Unparen(e)
+			switch x := e.(type) {
+			case *ast.UnaryExpr:
+				if x.Op == token.NOT {
+					return badLeaf(x.X, elem)
+				}
+			case *ast.BinaryExpr:
+				if x.Op == token.LAND || x.Op == token.LOR {
+					if b := badLeaf(x.X, elem); b != nil {
+						return b
+					}
+					return badLeaf(x.Y, elem)
+				}
+			}
+			if !mentions(e, holder) && !mentionsWatchList(e) {
+				return nil // about something else (an error, a flag)
+			}
+			if elem != nil && mentions(e, elem) && !mentions(e, holder) {
+				return nil // a test of the single directory (is it watched already?)
+			}
+			if be, ok := e.(*ast.BinaryExpr); ok {
+				l, r := ast.Unparen(be.X), ast.Unparen(be.Y)
+				if (isNilIdent(r) && identObj(info, l) == holder) || (isNilIdent(l) && identObj(info, r) == holder) {
+					return nil
+				}
+				for _, pr := range [][2]ast.Expr{{l, r}, {r, l}} {
+					if a, isLen := lenArg(info, pr[0]); isLen && identObj(info, a) == holder {
+						if v, isC := constInt(info, pr[1]); isC && v == 0 {
+							return nil
+						}
+					}
+				}
+			}
+			return e
+		}
+		// path of enclosing nodes for each Add / helper call
+		var stack []ast.Node
+		ast.Inspect(body, func(m ast.Node) bool {
+			if m == nil {
+				stack = stack[:len(stack)-1]
+				return true
+			}
+			stack = append(stack, m)
+			ce, ok := m.(*ast.CallExpr)
+			if !ok {
+				return true
+			}
+			// the element variable: range value over the holder enclosing this call
+			var elem types.Object
+			var conds []ast.Expr
+			conds = append(conds, outer...)
+			for i, s := range stack {
+				switch x := s.(type) {
+				case *ast.RangeStmt:
+					if identObj(info, x.X) == holder {
+						if o := identObj(info, x.Value); o != nil {
+							elem = o
+						}
+					}
+				case *ast.IfStmt:
+					if i+1 < len(stack) && (stack[i+1] == ast.Node(x.Body) || (x.Else != nil && stack[i+1] == ast.Node(x.Else))) {
+						conds = append(conds, x.Cond)
+					}
+				case *ast.BlockStmt:
+					// early exits in front of the statement that holds the call
+					if i+1 < len(stack) {
+						for _, st := range x.List {
+							if ast.Node(st) == stack[i+1] {
+								break
+							}
+							if is, ok := st.(*ast.IfStmt); ok && is.Else == nil && stmtLeaves(is.Body) {
+								conds = append(conds, is.Cond)
+							}
+						}
+					}
+				case *ast.CaseClause:
+					if i+1 < len(stack) {
+						for _, e := range x.List {
+							conds = append(conds, e)
+						}
+					}
+				}
+			}
+			if isAdd(info, ce) {
+				arg := ast.Unparen(ce.Args[0])
+				fromResult := (elem != nil && identObj(info, arg) == elem)
+				if ix, ok := arg.(*ast.IndexExpr); ok && identObj(info, ix.X) == holder {
+					fromResult = true
+				}
+				if !fromResult {
+					return true
+				}
+				n++
+				key := fmt.Sprintf("%s/Add(%s)#%d", owner, types.ExprString(arg), n)
+				var bad ast.Expr
+				for _, cd := range conds {
+					if b := badLeaf(cd, elem); b != nil && bad == nil {
+						bad = b
+					}
+				}
+				if bad != nil {
+					c.Bad(rule, key, ce.Pos(), fmt.Sprintf("the directories returned by the regeneration are added to the watcher only when `%s`: a regeneration for which the test fails leaves an imported package (or a previous version) unwatched, and edits there no longer regenerate the output", types.ExprString(bad)))
+				} else {
+					c.OK(rule, key, ce.Pos(), "every returned directory reaches Watcher.Add (only nil/emptiness and per-directory tests on the way)")
+				}
+				return true
+			}
+			// a helper of the package that receives the result
+			if depth < 2 {
+				if f := core.Callee(info, ce); f != nil && core.InModule(f) && f.Origin() != giw {
+					for ai, a := range ce.Args {
+						if identObj(info, a) != holder {
+							continue
+						}
+						fd := c.Decl(f.Origin())
+						if fd == nil || fd.Body == nil {
+							continue
+						}
+						hp := c.DeclPkg(fd)
+						ps := paramObjs(hp.TypesInfo, fd)
+						if ai < len(ps) && ps[ai] != nil {
+							var mine []ast.Expr
+							for _, cd := range conds {
+								if badLeaf(cd, elem) != nil {
+									// a bad test around the call of the helper: reported at the helper's Adds, in the caller's terms
+									mine = append(mine, cd)
+								}
+							}
+							if len(mine) > 0 {
+								n++
+								c.Bad(rule, fmt.Sprintf("%s/%s(%s)#%d", owner, f.Name(), types.ExprString(a), n), ce.Pos(), fmt.Sprintf("the result reaches %s only when `%s`: a regeneration for which the test fails leaves a directory unwatched", f.Name(), types.ExprString(mine[0])))
+							} else {
+								judge(c.FuncName(fd), hp.TypesInfo, fd.Body, ps[ai], nil, depth+1)
+							}
+						}
+					}
+				}
+			}
+			return true
+		})
+	}
+	for _, d := range c.AllDecls() {
+		p := c.DeclPkg(d)
+		if p == nil || p.PkgPath != core.Mod+"/internal/cmd" || d.Body == nil || c.IsTestFile(d.Pos()) {
+			continue
+		}
+		info := p.TypesInfo
+		ast.Inspect(d.Body, func(nn ast.Node) bool {
+			as, ok := nn.(*ast.AssignStmt)
+			if !ok || len(as.Lhs) != 1 || len(as.Rhs) != 1 {
+				return true
+			}
+			ce, ok := ast.Unparen(as.Rhs[0]).(*ast.CallExpr)
+			if !ok {
+				return true
+			}
+			if f := core.Callee(info, ce); f == nil || f.Origin() != giw {
+				return true
+			}
+			holder := identObj(info, as.Lhs[0])
+			if holder == nil {
+				return true
+			}
+			// the innermost function body (declaration or literal) that holds the assignment
+			var body *ast.BlockStmt = d.Body
+			ast.Inspect(d.Body, func(m ast.Node) bool {
+				if fl, ok := m.(*ast.FuncLit); ok && fl.Body.Pos() <= as.Pos() && as.End() <= fl.Body.End() {
+					body = fl.Body
+				}
+				return true
+			})
+			judge(c.FuncName(d), info, body, holder, nil, 0)
+			return true
+		})
+	}
+	if n == 0 {
+		c.Undecided(rule, "anchor/Watcher.Add of the result", 0, "no Watcher.Add of an element of generateInWatchMode's result found in internal/cmd")
+	}
+}
+
+// ruleAliasNameOnlyForTheAliasedUnion (UN1): the Python back end calls a union class after its members
+// (`Int32OrFloat32`) — except for an alias that IS a union, whose class carries the alias name. Every other place of
+// the generator (type syntax, serializers, converters, imports) follows that convention by looking at the type the
+// alias names. A site that walks a definition and renames EVERY union it meets below a NamedType breaks it: a union
+// given as a type argument of the aliased type is emitted under the alias name, the alias itself is skipped as
+// "already written", and the module refers to a class that does not exist (fix 06a4a33: import failed).
+// Rule: inside a Visit callback, the enclosing definition's name is assigned to a variable only under a test that
+// identifies the visited node with the definition's own type (`nt.Type == node`).
+func ruleAliasNameOnlyForTheAliasedUnion(c *core.Ctx) {
+	const rule = "UN1"
+	c.Rule(rule, "internal/python, internal/matlab: inside a traversal of a type definition, a union met on the way takes the NAME of the definition only under a test `definition.Type == node` — not merely because the definition is a NamedType", 2)
+	perFunc := map[string]int{}
+	n := 0
+	for _, d := range c.AllDecls() {
+		p := c.DeclPkg(d)
+		if p == nil || !(strings.HasPrefix(p.PkgPath, core.Mod+"/internal/python") || strings.HasPrefix(p.PkgPath, core.Mod+"/internal/matlab")) || d.Body == nil || c.IsTestFile(d.Pos()) {
+			continue
+		}
+		info := p.TypesInfo
+		ast.Inspect(d.Body, func(nn ast.Node) bool {
+			ce, ok := nn.(*ast.CallExpr)
+			if !ok {
+				return true
+			}
+			f := core.Callee(info, ce)
+			if f == nil || f.Pkg() == nil || f.Pkg().Path() != core.Mod+"/pkg/dsl" || !strings.HasPrefix(f.Name(), "Visit") || len(ce.Args) < 2 {
+				return true
+			}
+			root := identObj(info, ce.Args[0])
+			var lit *ast.FuncLit
+			for _, a := range ce.Args {
+				if fl, ok := ast.Unparen(a).(*ast.FuncLit); ok {
+					lit = fl
+				}
+			}
+			if root == nil || lit == nil {
+				return true
+			}
+			// variables that stand for the traversed definition: the root itself and `nt, ok := root.(*dsl.NamedType)`
+			defs := map[types.Object]bool{root: true}
+			ast.Inspect(d.Body, func(m ast.Node) bool {
+				if as, ok := m.(*ast.AssignStmt); ok && len(as.Rhs) == 1 {
+					if ta, ok := ast.Unparen(as.Rhs[0]).(*ast.TypeAssertExpr); ok && defs[identObj(info, ta.X)] {
+						if o := identObj(info, as.Lhs[0]); o != nil {
+							defs[o] = true
+						}
+					}
+				}
+				return true
+			})
+			isDefName := func(e ast.Expr) bool {
+				// root.GetDefinitionMeta().Name / nt.Name / nt.GetDefinitionMeta().Name
+				se, ok := ast.Unparen(e).(*ast.SelectorExpr)
+				if !ok || se.Sel.Name != "Name" {
+					return false
+				}
+				x := ast.Unparen(se.X)
+				if call, ok := x.(*ast.CallExpr); ok {
+					if s2, ok := ast.Unparen(call.Fun).(*ast.SelectorExpr); ok && s2.Sel.Name == "GetDefinitionMeta" {
+						x = ast.Unparen(s2.X)
+					}
+				}
+				return defs[identObj(info, x)]
+			}
+			// all right-hand sides of a boolean local
+			boolDefs := map[types.Object][]ast.Expr{}
+			ast.Inspect(d.Body, func(m ast.Node) bool {
+				if as, ok := m.(*ast.AssignStmt); ok {
+					for i, l := range as.Lhs {
+						if o := identObj(info, l); o != nil && isBoolType(o.Type()) {
+							if len(as.Rhs) == len(as.Lhs) {
+								boolDefs[o] = append(boolDefs[o], as.Rhs[i])
+							}
+						}
+					}
+				}
+				return true
+			})
+			var comparesOwnType func(e ast.Expr, depth int) bool
+			comparesOwnType = func(e ast.Expr, depth int) bool {
+				hit := false
+				ast.Inspect(e, func(m ast.Node) bool {
+					switch x := m.(type) {
+					case *ast.BinaryExpr:
+						if x.Op == token.EQL {
+							for _, pr := range [][2]ast.Expr{{x.X, x.Y}, {x.Y, x.X}} {
+								if se, ok := ast.Unparen(pr[0]).(*ast.SelectorExpr); ok && se.Sel.Name == "Type" && defs[identObj(info, se.X)] {
+									hit = true
+								}
+							}
+						}
+					case *ast.Ident:
+						if depth < 3 {
+							if o := info.ObjectOf(x); o != nil {
+								for _, r := range boolDefs[o] {
+									if comparesOwnType(r, depth+1) {
+										hit = true
+									}
+								}
+							}
+						}
+					}
+					return !hit
+				})
+				return hit
+			}
+			var stack []ast.Node
+			ast.Inspect(lit.Body, func(m ast.Node) bool {
+				if m == nil {
+					stack = stack[:len(stack)-1]
+					return true
+				}
+				stack = append(stack, m)
+				as, ok := m.(*ast.AssignStmt)
+				if !ok || len(as.Lhs) != 1 || len(as.Rhs) != 1 || !isDefName(as.Rhs[0]) {
+					return true
+				}
+				// only inside the handling of a GeneralizedType
+				inGT := false
+				guarded := false
+				for i, s := range stack {
+					switch x := s.(type) {
+					case *ast.CaseClause:
+						for _, e := range x.List {
+							if strings.HasSuffix(types.ExprString(e), "GeneralizedType") {
+								inGT = true
+							}
+						}
+					case *ast.IfStmt:
+						if i+1 < len(stack) && stack[i+1] == ast.Node(x.Body) {
+							if x.Init != nil {
+								if ia, ok := x.Init.(*ast.AssignStmt); ok && len(ia.Rhs) == 1 {
+									if ta, ok := ast.Unparen(ia.Rhs[0]).(*ast.TypeAssertExpr); ok && strings.HasSuffix(types.ExprString(ta.Type), "GeneralizedType") {
+										inGT = true
+									}
+								}
+							}
+							if comparesOwnType(x.Cond, 0) {
+								guarded = true
+							}
+						}
+					}
+				}
+				if !inGT {
+					return true
+				}
+				n++
+				perFunc[c.FuncName(d)]++
+				key := fmt.Sprintf("%s/%s = definition name#%d", c.FuncName(d), types.ExprString(as.Lhs[0]), perFunc[c.FuncName(d)])
+				c.Check(guarded, rule, key, as.Pos(), "only for the union that is the definition's own type",
+					"every union met below the definition takes the definition's name: a union that is a type argument of the aliased type (`NT: !generic {name: Rec, args: [[int, float]]}`) is emitted as `class NT`, the alias is skipped as already written and the module refers to the undefined member-wise name — the generated package does not import")
+				return true
+			})
+			return true
+		})
+	}
+	if n == 0 {
+		c.Undecided(rule, "anchor/definition name given to a union", 0, "no assignment of a definition's name inside a GeneralizedType case of a traversal found in internal/python or internal/matlab")
+	}
+}
+
+// ruleUnionDtypesBeforeTheirUsers (DT1): the generated `_mk_get_dtype` fills dtype_map top to bottom while the module is
+// imported, and an entry may call get_dtype(...) right away (a field whose type is a generic record instantiated with a
+// union looks the union up). Inside the loop over the type definitions, the statement that writes the dtypes of the
+// unions used by a definition therefore precedes the statement that writes the definition's own entry (fix 107495d).
+func ruleUnionDtypesBeforeTheirUsers(c *core.Ctx) {
+	const rule = "DT1"
+	c.Rule(rule, "internal/python/types.writeGetDTypeFunc: in the loop over the type definitions the dtypes of the unions a definition uses are written before the definition's own dtype_map entry (entries are evaluated eagerly, in order, at import)", 1)
+	p := c.Pkg("internal/python/types")
+	_, d, _ := c.Func("internal/python/types", "writeGetDTypeFunc")
+	if p == nil || d == nil {
+		c.Undecided(rule, "anchor/internal/python/types.writeGetDTypeFunc", 0, "anchor not found")
+		return
+	}
+	info := p.TypesInfo
+	// local closures that print a dtype_map entry for a union: their body handles *dsl.GeneralizedType and prints `dtype_map.setdefault`
+	printsEntry := func(n ast.Node) bool {
+		hit := false
+		ast.Inspect(n, func(m ast.Node) bool {
+			if bl, ok := m.(*ast.BasicLit); ok && bl.Kind == token.STRING && strings.Contains(bl.Value, "dtype_map.setdefault(") {
+				hit = true
+			}
+			return !hit
+		})
+		return hit
+	}
+	unionWriters := map[types.Object]bool{}
+	ast.Inspect(d.Body, func(m ast.Node) bool {
+		as, ok := m.(*ast.AssignStmt)
+		if !ok || len(as.Lhs) != 1 || len(as.Rhs) != 1 {
+			return true
+		}
+		fl, ok := as.Rhs[0].(*ast.FuncLit)
+		if !ok || !printsEntry(fl) {
+			return true
+		}
+		handlesUnion := false
+		ast.Inspect(fl, func(x ast.Node) bool {
+			if se, ok := x.(*ast.SelectorExpr); ok && se.Sel.Name == "IsUnion" {
+				handlesUnion = true
+			}
+			return true
+		})
+		if handlesUnion {
+			if o := identObj(info, as.Lhs[0]); o != nil {
+				unionWriters[o] = true
+			}
+		}
+		return true
+	})
+	n := 0
+	ast.Inspect(d.Body, func(m ast.Node) bool {
+		rs, ok := m.(*ast.RangeStmt)
+		if !ok {
+			return true
+		}
+		if se, ok := ast.Unparen(rs.X).(*ast.SelectorExpr); !ok || se.Sel.Name != "TypeDefinitions" {
+			return true
+		}
+		lv := identObj(info, rs.Value)
+		if lv == nil {
+			return true
+		}
+		// positions, in the loop body, of the own entry and of the union writer called with the loop variable
+		var ownPos, unionPos token.Pos
+		ast.Inspect(rs.Body, func(x ast.Node) bool {
+			if _, isLit := x.(*ast.FuncLit); isLit {
+				return false
+			}
+			ce, ok := x.(*ast.CallExpr)
+			if !ok {
+				return true
+			}
+			if id, ok := ast.Unparen(ce.Fun).(*ast.Ident); ok && unionWriters[info.ObjectOf(id)] {
+				for _, a := range ce.Args {
+					if o := identObj(info, a); o != nil && (o == lv || o.Name() == lv.Name()) && (unionPos == token.NoPos || ce.Pos() < unionPos) {
+						unionPos = ce.Pos()
+					}
+				}
+				return true
+			}
+			if printsEntry(ce) && (ownPos == token.NoPos || ce.Pos() < ownPos) {
+				ownPos = ce.Pos()
+			}
+			return true
+		})
+		if ownPos == token.NoPos || unionPos == token.NoPos {
+			return true
+		}
+		n++
+		c.Check(unionPos < ownPos, rule, fmt.Sprintf("writeGetDTypeFunc/range %s#%d", types.ExprString(rs.X), n), rs.Pos(), "the unions of a definition are registered before the definition's own entry",
+			"the definition's own dtype_map entry is written before the entries of the unions it uses: an entry that calls get_dtype(Rec[Int32OrFloat32]) at import time (a field of a generic type instantiated with a union) fails with \"Cannot find dtype\" — the generated package does not import")
+		return true
+	})
+	if n == 0 {
+		c.Undecided(rule, "anchor/loop over TypeDefinitions", d.Pos(), "no loop over the type definitions that writes both the own entry and the union entries was found")
+	}
+}
